@@ -295,6 +295,31 @@ def gen_s4():
     st = [("let", "sel", ("func", ["k"], ("select", SYM("k"), ("fail", B("+", S("no "), SYM("k"))), [("a", I(1)), ("b", ("range", I(0), None, I(2)))]))),
           ("let", "r", ("map", SYM("sel"), L(S("a"), S("b")))), ("let", "r2", ("call", SYM("sel"), [S("c")]))]
     yield ("s4/deep", "select-default-fail"), st
+    # P6: closures made by one factory, each over another value, and called one after the other: every way of making
+    # them x every way of calling them (added after a sixth-round seeded change: captured scopes compared by their names
+    # only, and the result of the previous call handed to an "equal" call)
+    mk = ("let", "mk", ("func", ["n"], ("func", ["x"], B("+", SYM("x"), SYM("n")))))
+    makers = {
+        "two-calls": [mk] + [("let", "c%d" % i, ("call", SYM("mk"), [I(i + 1)])) for i in range(3)],
+        "via-helper": [mk, ("let", "via", ("func", ["k"], ("call", SYM("mk"), [SYM("k")])))] + [("let", "c%d" % i, ("call", SYM("via"), [I(i + 1)])) for i in range(3)],
+        "via-map-callback": [mk, ("let", "fs", ("map", ("func", ["i"], ("call", SYM("mk"), [SYM("i")])), L(I(1), I(2), I(3))))] + [("let", "c%d" % i, B(".", SYM("fs"), I(i))) for i in range(3)],
+        "via-map-direct": [mk, ("let", "fs", ("map", SYM("mk"), L(I(1), I(2), I(3))))] + [("let", "c%d" % i, B(".", SYM("fs"), I(i))) for i in range(3)],
+        "helper-returns-tuple": [mk, ("let", "via", ("func", ["k"], T(("f", ("call", SYM("mk"), [SYM("k")])))))] +
+                                [st for i in range(3) for st in (("let", "t%d" % i, ("call", SYM("via"), [I(i + 1)])), ("let", "c%d" % i, B(".", SYM("t%d" % i), SYM("f"))))],
+    }
+    call = lambda i, a: ("call", SYM("c%d" % i), [I(a)])
+    callers = {
+        "consecutive-same-argument": [("let", "r%d" % i, call(i, 10)) for i in range(3)],
+        "in-one-list": [("let", "r", L(call(0, 10), call(1, 10), call(2, 10)))],
+        "in-one-sum": [("let", "r", B("+", call(0, 10), B("*", call(1, 10), call(2, 10))))],
+        "different-arguments": [("let", "r0", call(0, 10)), ("let", "r1", call(1, 20)), ("let", "r2", call(0, 10))],
+        "interleaved": [("let", "r0", call(0, 10)), ("let", "r1", call(1, 10)), ("let", "r2", call(0, 10)), ("let", "r3", call(1, 10))],
+        "same-closure-twice-then-another": [("let", "r0", call(0, 10)), ("let", "r1", call(0, 10)), ("let", "r2", call(1, 10))],
+        "through-map": [("let", "r", ("map", ("func", ["f"], ("call", SYM("f"), [I(10)])), L(SYM("c0"), SYM("c1"), SYM("c2"))))],
+    }
+    for mn, mdefs in makers.items():
+        for cn, cdefs in callers.items():
+            yield ("s4/closure-factory", mn, cn), mdefs + cdefs
     # statement-kind sequences: expression statements between lets must not disturb bindings
     for k in range(0, 4):
         st = [("let", "a", I(1))] + [("expr", B("+", SYM("a"), I(i))) for i in range(k)] + [("let", "r", B("+", SYM("a"), I(1)))]
